@@ -215,6 +215,17 @@ impl<O: Clone + PartialEq, A: Clone> OpenHypergraph<O, A> {
     /// Apply the quotient map to identify nodes in the internal [`Hypergraph`],
     /// returning the computed coequalizer.
     pub fn quotient(&mut self) -> Result<FiniteFunction, FiniteFunction> {
+        #[cfg(feature = "verif-hooks")]
+        if crate::verif_trace::enabled() && !crate::verif_trace::in_hook() {
+            let mut reps = Vec::new();
+            let pre = crate::verif_trace::lax_json(self, &mut reps);
+            crate::verif_trace::set_in_hook(true);
+            let r = self.quotient();
+            crate::verif_trace::set_in_hook(false);
+            let post = crate::verif_trace::lax_json(self, &mut reps);
+            crate::verif_trace::record_quotient(pre, &r, post);
+            return r;
+        }
         // mutably quotient self.hypergraph, returning the coequalizer q
         let q = self.hypergraph.quotient()?;
 
